@@ -15,6 +15,17 @@ from .absval import register_domain
 from .domains import Domain
 from .load import unparse
 
+class CAT(sp.Function):
+    """uninterpreted concatenation of array pieces; a concatenation of zeros is zero"""
+
+    @classmethod
+    def eval(cls, *args):
+        if args and all(getattr(a, "is_zero", False) for a in args):
+            return sp.Integer(0)
+        return None
+
+
+EINSUM = sp.Function("EINSUM")  # uninterpreted contraction EINSUM(spec, A, B)
 SIG = sp.Function("SIG")  # uninterpreted linear reduction over the panel / element axes
 SIGA = sp.Function("SIGA")  # reduction over one named axis: SIGA(expr, axis)
 CROSS = sp.Function("CROSS")  # vector product along the last axis (bilinear, uninterpreted)
@@ -337,9 +348,12 @@ class SymX(Domain):
         # value numbering: a local whose defining expression is outside the supported
         # fragment becomes an opaque (array) atom, so identities around it can still be
         # compared within the same run
-        if v.dom.get(self.name) is None and v.kind in ("arr", "num") and any(d.startswith(("in:", "out:")) for d in v.dep) and v.obj is None:
+        if v.dom.get(self.name) is None and v.kind in ("arr", "num") and v.obj is None and (v.dep or v.cfg):
             ln = getattr(stmt, "lineno", 0)
-            v.dom[self.name] = self.table.get("opq:%s@L%d%s" % (name, ln, self.pass_tag(it).replace("@", "p")), array=True, positive=False)
+            # definition site = line, enclosing loop passes, and the chain of call sites of inlined helpers
+            site = "".join("c%d" % getattr(fr.callsite, "lineno", 0) for fr in it.frames[1:] if fr.callsite is not None)
+            loops = "".join({"first": "a", "generic": "b", "generic2": "c"}.get(l.tag, "x") for l in it.loops if l.kind != "cfglist")
+            v.dom[self.name] = self.table.get("opq:%s@L%d%s%s%s" % (name, ln, site and ("_" + site), loops and ("_" + loops), self.pass_tag(it).replace("@", "p")), array=(v.kind == "arr"), positive=False)
 
     def on_aug(self, it, op, cur, rhs, res, st):
         a = cur.dom.get(self.name)
@@ -405,6 +419,12 @@ class SymX(Domain):
                 return self.table.get("const:" + v.extra[2], positive=True)
             return None
         if isinstance(node, ast.Attribute):
+            if v.obj is not None and v.obj in st.heap and v.view == "whole":
+                ob = st.heap[v.obj]
+                if ob.dom.get("SYMX_partial") or ob.dom.get("SYMX_idx"):
+                    return None
+                if self.name in ob.dom and ob.dom[self.name] is None and ob.stored:
+                    return None
             if isinstance(node.value, ast.Name) and node.value.id == "self":
                 d = v.dom.get(self.name)
                 if d is not None:
@@ -444,6 +464,9 @@ class SymX(Domain):
             # x[0] of a scalar input / scalar expression
             s = canon_sub(node.slice)
             if isinstance(base, sp.Symbol):
+                if base not in self.table.arrays and base.name.startswith("cfg:") and (s not in ("0", ":", "...") or (s == "0" and v.kind != "num")):
+                    # element / slice of a configuration array: distinct from the whole and from other slices
+                    self.table.arrays.add(base)
                 if base not in self.table.arrays:
                     return base
                 comp = _component_key(node.slice)
@@ -451,7 +474,7 @@ class SymX(Domain):
                     return self.table.get("%s[...,%s]" % (base.name, comp), array=True, positive=False)
                 if s in (":", "..."):
                     return base
-                return self.table.get("%s[%s]" % (base.name, s), array=True, positive=base.is_positive)
+                return self.table.get("%s[%s]" % (base.name, s), array=(v.kind != "num"), positive=base.is_positive)
             if s in ("0", ":", "...", "0,0"):
                 return base if not has_array(base, self.table) or s in (":", "...") else None
             return None
@@ -555,6 +578,30 @@ class SymX(Domain):
                 return None
             if short in ("array", "asarray") and ads and ads[0] is not None:
                 return ads[0]
+            if short == "einsum" and len(args) == 3 and isinstance(args[0], ast.Constant) and isinstance(args[0].value, str):
+                # broadcasting product without contraction ("ijk,j->ijk"): element-wise product
+                spec = args[0].value.replace(" ", "")
+                ops = list(ads[1:3])
+                for i_, a_ in enumerate(args[1:3]):
+                    if ops[i_] is None and isinstance(a_, ast.Name):
+                        # an operand assembled element-wise (e.g. a stack of small matrices): opaque array
+                        ops[i_] = self.table.get("opq:obj:%s" % a_.id, array=True, positive=False)
+                if "->" in spec and ops[0] is not None and ops[1] is not None and not isinstance(ops[0], sp.MatrixBase) and not isinstance(ops[1], sp.MatrixBase):
+                    ins, outp = spec.split("->")
+                    parts = ins.split(",")
+                    if len(parts) == 2 and set(outp) == set(parts[0]) | set(parts[1]) and len(set(outp)) == len(outp):
+                        if ads[1] is None or ads[2] is None:
+                            return None
+                        return ads[1] * ads[2]
+                    if len(parts) == 2:
+                        return EINSUM(sp.Symbol(spec), ops[0], ops[1])
+                return None
+            if short in ("hstack", "concatenate", "append", "vstack"):
+                elts = list(args[0].elts) if (len(args) >= 1 and isinstance(args[0], (ast.Tuple, ast.List)) and short != "append") else list(args)
+                parts = [self.of(e) for e in elts]
+                if not parts or any(p_ is None or isinstance(p_, sp.MatrixBase) for p_ in parts):
+                    return None
+                return CAT(*parts)
             if short == "tile" and ads and isinstance(ads[0], sp.MatrixBase):
                 return ads[0]  # repetition of a small constant block (the block is what is compared)
             if short in ("float", "complex", "real", "asarray", "array", "squeeze", "copy", "atleast_1d", "float64") and len(ads) == 1:
